@@ -379,6 +379,8 @@ def run_chunk(chunk):
             check_pattern(mode, seq, base, res, False)
         if budget <= 2:
             check_pattern(mode, seq, bases[0], res, True)
+            if 'GEO' in bases and budget == 1:
+                check_pattern(mode, seq, 'GEO', res, True)
         if k % 499 == 0:
             res.samples.append({'mode': mode, 'pattern': pat.render(seq), 'base': bases[0]})
     impl.clear()
